@@ -46,7 +46,8 @@ RULE = (
     "seed rows per shard with PKs from 1..4 so equal PKs live on several shards; program of 4-15 ops (always one chooser-routed select, one unit-of-work write and one lazy load): add parent(+children)/add child/"
     "modify/ORM delete + flush, commit, get (plain / identity_token / bind shard_id), select (2.0, legacy Query, column rows, Core table; "
     "filters, ORDER BY, LIMIT; set_shard_id option / bind_arguments shard_id / Query.set_shard), lazy load of Parent.children and "
-    "Child.parent, refresh, expire+access, ORM-enabled bulk UPDATE/DELETE). Object references are indexes modulo the current model rows. "
+    "Child.parent, refresh, expire+access, ORM-enabled bulk UPDATE/DELETE, detach (expunge / second session closed / + pickle round trip) + optional modification + merge(load=True) "
+    "of an object whose PK also lives on other shards, with or without the other shard's object resident in the session). Object references are indexes modulo the current model rows. "
     "Non-trivial: some read/bulk op spanned >=2 shards that both hold one of the PKs of the queried table, or a lazy load / refresh / "
     "expired load ran for an object of a shard other than the first; distinct = canonical JSON of the case"
 )
@@ -56,6 +57,7 @@ ASSUMPTIONS = [
     "results of a multi-shard statement are compared per shard (multiset, and order within one shard when ORDER BY is given); the interleaving of shards is not judged",
     "session.get()/many-to-one loads whose chooser-selected shards hold the PK more than once must raise MultipleResultsFound (Result.one()); not judged further",
     "bulk DELETE uses synchronize_session='fetch' (evaluate skips expired objects by design, which would leave stale identities the model does not track); no rollback op",
+    "merge(load=True) of a detached persistent object reconciles by its full identity key (class, pk, identity_token) as Session.merge documents; the detached object has no loaded relationships, so nothing cascades",
     "trusted: the Python row model in this file, sqlite3 as the independent observer, vf.sautil.Capture (before_cursor_execute) as statement monitor",
 ]
 
@@ -309,13 +311,17 @@ class _World:
                     return ids
             return list(w.ex_sub)
 
-        self.sess = ShardedSession(
-            shards=dict(self.engines),
-            shard_chooser=shard_chooser,
-            identity_chooser=identity_chooser,
-            execute_chooser=execute_chooser,
-            expire_on_commit=self.case["eoc"],
-        )
+        def new_session():
+            return ShardedSession(
+                shards=dict(self.engines),
+                shard_chooser=shard_chooser,
+                identity_chooser=identity_chooser,
+                execute_chooser=execute_chooser,
+                expire_on_commit=self.case["eoc"],
+            )
+
+        self.new_session = new_session
+        self.sess = new_session()
 
     def teardown(self):
         try:
@@ -1006,7 +1012,131 @@ def _op_bulk(w, op):
     w.audit_all(what)
 
 
+def _op_merge(w, op):
+    """detach an object of shard B (expunge / loaded by another session that is then closed / + pickle round trip),
+    optionally modify it, and merge(load=True) it back while the session does not hold the B identity but may hold the
+    equal-PK object of another shard A.  Session.merge() is documented to reconcile by identity key, which for a
+    ShardedSession includes the identity token: the merged object is the B identity, A is untouched, the UPDATE goes to B"""
+    cls, how = op["cls"], op["how"]
+    ent = CLS[cls]
+    rows = w.rows_of(cls)
+    dup = [(s, pk) for s, pk in rows if any(o != s and pk in w.db[o][cls] for o in w.names)]
+    if op["dup"] and dup:
+        rows = dup
+    if not rows:
+        w.labels.add("noop")
+        return
+    b, pk = rows[op["o"] % len(rows)]
+    kb = (cls, pk, b)
+    others = [o for o in w.names if o != b and pk in w.db[o][cls]]
+    w.labels.add("merge")
+    w.labels.add(f"merge:how={how}")
+    # ---- optionally make sure the equal-PK object of another shard is resident (preferring one the identity chooser lists before B)
+    if others and op["resident"]:
+        rank = {sh: i for i, sh in enumerate(w.id_sub)}
+        a = sorted(others, key=lambda o: (rank.get(o, 99), o))[0]
+        ka = (cls, pk, a)
+        if ka not in w.held:
+            w.clear()
+            oa = w.sess.get(ent, pk, identity_token=a)
+            w.expect_sql("get-token", exact=[a])
+            if oa is None:
+                raise Violation("C53/get-token/missed-row", f"get({cls}, {pk}, identity_token={a!r}) returned None but the shard holds the row")
+            w.see(oa, cls, "get-token", expected_shard=a)
+    # ---- detach the B object
+    if how == "expunge":
+        if kb not in w.held:
+            w.pick(cls, w.rows_of(cls).index((b, pk)))
+        w.audit_obj(kb, "pre-merge")  # loads expired column attributes (own shard only)
+        det = w.held[kb][0]
+        w.sess.expire(det, ["children" if cls == "P" else "parent"])  # unloaded relationships: merge does not cascade
+        w.sess.expunge(det)
+        w.drop(kb)
+    else:
+        if w.dirty:  # the other session reads committed state only
+            w.sess.commit()
+            w.dirty = False
+            w.dump_check("commit")
+        other = w.new_session()
+        try:
+            det = other.get(ent, pk, identity_token=b)
+            if det is None:
+                raise Violation("C53/get-token/missed-row", f"second session: get({cls}, {pk}, identity_token={b!r}) returned None")
+            det.tag, det.val  # loaded
+        finally:
+            other.close()
+        if how == "pickle":
+            import pickle
+
+            det = pickle.loads(pickle.dumps(det))
+    st_d = inspect(det)
+    if not st_d.detached or st_d.identity_token != b:
+        raise Violation("C53/merge/detached-object-lost-token", f"detached {cls}({pk}) of shard {b}: detached={st_d.detached} identity_token={st_d.identity_token!r}")
+    row = w.db[b][cls][pk]
+    new_val = None
+    if op["modify"]:
+        new_val = op["val"] if op["val"] != row["val"] else op["val"] + 1
+        det.val = new_val
+        w.labels.add("merge:modified")
+    held_b = kb in w.held
+    resident = [o for o in others if (cls, pk, o) in w.held]
+    if others:
+        w.nontrivial = True
+        w.labels.add("merge:pk-also-on-other-shard")
+    if held_b:
+        w.labels.add("merge:target-identity-already-in-session")
+    elif resident:
+        w.labels.add("merge:other-shard-object-resident")
+        if any(o in w.id_sub and (b not in w.id_sub or w.id_sub.index(o) < w.id_sub.index(b)) for o in resident):
+            w.labels.add("merge:other-shard-object-resident:listed-before-target")
+    elif others:
+        w.labels.add("merge:no-resident-but-pk-on-other-shard")
+    before = {k: w.held[k][0] for k in w.held}
+    w.clear()
+    try:
+        merged = w.sess.merge(det, load=True)
+    except MultipleResultsFound as e:
+        raise Violation(
+            "C53/merge/multiple-results",
+            f"merge() of detached {cls}({pk}) with identity_token {b!r} raised MultipleResultsFound ({e}); the key names one shard",
+            observed=str(e), expected=f"the {b} identity",
+        )
+    if held_b:
+        w.expect_sql("merge", within=[b])
+        if merged is not before[kb]:
+            raise Violation("C53/merge/not-the-resident-identity", f"merge of {kb}: the session holds that identity but a different object was returned")
+    else:
+        w.expect_sql("merge", exact=[b])
+    tok = inspect(merged).identity_token
+    for k2, o2 in before.items():
+        if o2 is merged and k2 != kb:
+            raise Violation(
+                "C53/merge/merged-onto-other-shard-identity",
+                f"merge of detached {cls}({pk}) from shard {b} returned the resident object of {k2} (identity_token {tok!r}); equal PKs of different shards must stay distinct",
+                observed=list(k2), expected=list(kb),
+            )
+    if tok != b:
+        raise Violation("C53/merge/identity-token-wrong-shard", f"merge of detached {cls}({pk}) from shard {b} gave identity_token {tok!r}", observed=tok, expected=b)
+    if merged is det:
+        raise Violation("C53/merge/returned-the-detached-object", f"merge of {kb} returned the given detached instance")
+    w.clear()
+    w.sess.flush()
+    if new_val is not None:
+        w.dirty = True
+        row["val"] = new_val
+        w.expect_sql("merge-flush", exact=[b], kinds={"INSERT", "UPDATE", "DELETE"})
+    else:
+        w.expect_sql("merge-flush", exact=[], kinds={"INSERT", "UPDATE", "DELETE"})
+    w.see(merged, cls, "merge", expected_shard=b)
+    w.audit_all("merge")  # A's attributes untouched, B's follow the merged state
+    if new_val is not None and op["commit"]:
+        w.sess.commit()
+        w.dirty = False
+        w.dump_check("merge-commit")  # raw sqlite3: the UPDATE landed in shard B only
+
+
 OPS = {
+    "merge": _op_merge,
     "add_parent": _op_add_parent,
     "add_child": _op_add_child,
     "modify": _op_modify,
@@ -1164,6 +1294,19 @@ def _strats(n):
     modify = st.fixed_dictionaries({"op": st.just("modify"), "cls": cls_s, "o": ref, "val": st.integers(0, 9)})
     orm_delete = st.fixed_dictionaries({"op": st.just("orm_delete"), "o": ref})
     get = st.fixed_dictionaries({"op": st.just("get"), "cls": cls_s, "id": st.integers(1, 5), "how": st.sampled_from(["plain", "plain", "token", "bind"]), "shard": sh})
+    merge = st.fixed_dictionaries(
+        {
+            "op": st.just("merge"),
+            "cls": st.sampled_from(["P", "P", "C"]),
+            "o": ref,
+            "how": st.sampled_from(["other_session", "expunge", "pickle"]),
+            "dup": st.sampled_from([True, True, True, False]),
+            "resident": st.sampled_from([True, False]),
+            "modify": st.sampled_from([True, True, False]),
+            "val": st.integers(0, 9),
+            "commit": st.booleans(),
+        }
+    )
     write = st.one_of(add_parent, add_parent, add_child, modify, modify, orm_delete)
     op = st.one_of(
         add_parent,
@@ -1182,6 +1325,7 @@ def _strats(n):
         st.fixed_dictionaries({"op": st.sampled_from(["refresh", "expire_access"]), "cls": cls_s, "o": ref}),
         bulk("P"),
         bulk("C"),
+        merge,
     )
     sticky_route = st.tuples(st.just("opt"), sh, st.just(True)).map(list)
     sticky_api = st.sampled_from(["select", "query"])
@@ -1194,6 +1338,7 @@ def _strats(n):
         "op": op,
         "lazy": lazy,
         "write": write,
+        "merge": merge,
         "few3": st.lists(op, min_size=0, max_size=3),
         "few4": st.lists(op, min_size=1, max_size=4),
         "sel_unrouted": st.one_of(sel("P", route=st.none()), sel("C", route=st.none())),
@@ -1240,6 +1385,8 @@ def _programs(draw):
     else:
         ops.append(draw(S["lazy"]))
     ops.extend(draw(S["few3"]))
+    if draw(_THIRD) == 0:  # a third of the programs: detach + merge across shards, at a drawn position after the first ops
+        ops.insert(draw(st.integers(1, len(ops))), draw(S["merge"]))
     return {
         "n": n,
         "table": table,
